@@ -35,7 +35,18 @@ class InjectedBase(BaseException):
     pass
 
 
-EXC = {'os': InjectedOSError, 'base': InjectedBase, 'kbd': KeyboardInterrupt}
+EXC = {'os': InjectedOSError, 'base': InjectedBase, 'kbd': KeyboardInterrupt, 'storage': None, 'cache': None}
+
+
+def exc_class(kind):
+    # labtech's own exception classes are faults too (a Storage may raise StorageError at any point)
+    if kind == 'storage':
+        from labtech.exceptions import StorageError
+        return StorageError
+    if kind == 'cache':
+        from labtech.exceptions import CacheError
+        return CacheError
+    return EXC[kind]
 
 
 # ------------------------------------------------------------------ one case on the real code
@@ -102,7 +113,7 @@ def run_case(case):
     kind, idx, mode = case['kind'], case['idx'], case['mode']
     inj = case.get('inj')
     inj = tuple(inj) if inj is not None else None
-    exc_cls = EXC[case.get('exc', 'os')]
+    exc_cls = exc_class(case.get('exc', 'os'))
     Type = T.KINDS[kind]
     d = tempfile.mkdtemp(prefix='verif-c12-')
     try:
@@ -218,7 +229,7 @@ def enumerate_cases(tier, dry_of):
     """every injection point of every save of the corpus"""
     import savetasks as T
     cases = []
-    excs = ['os', 'base', 'kbd']
+    excs = ['os', 'base', 'kbd', 'storage', 'cache']
     c = 0
     for kind in ('pickle', 'json', 'norm'):
         for mode in ('first', 'over'):
@@ -234,8 +245,8 @@ def enumerate_cases(tier, dry_of):
                 pts += [('line', e) for e in range(dry['lines'])]
                 for p in pts:
                     c += 1
-                    cases.append(dict(kind=kind, idx=idx, mode=mode, inj=list(p), exc=excs[c % 3],
-                                      cof=(c % 5 != 0)))
+                    cases.append(dict(kind=kind, idx=idx, mode=mode, inj=list(p), exc=excs[c % 5],
+                                      cof=(c % 7 != 0)))
             for idx in sorted(T.BAD):
                 cases.append(dict(kind=kind, idx=idx, mode=mode, inj=None, exc='os', cof=True))
                 if tier == 'thorough':
@@ -412,7 +423,7 @@ def run(ctx):
         # enlarged search: every exception class at every point, both continue_on_failure settings
         extra = []
         for c in cases:
-            for exc in ('os', 'base', 'kbd'):
+            for exc in ('os', 'base', 'kbd', 'storage', 'cache'):
                 for cof in (True, False):
                     if exc != c['exc'] or cof != c['cof']:
                         extra.append(dict(c, exc=exc, cof=cof))
